@@ -131,7 +131,7 @@ CHECKS = {
    design='DESIGN.md §3 C07'),
  'C08': dict(
    text='Machine-checked proof (Coq) for EVERY code-point list, in the string and the URI alphabet: the writer\'s escaping is total; its output holds no character below U+0020 and no unescaped quote; the reader\'s literal rule '
-        'consumes exactly the written literal whatever follows and returns the original text; escaping is injective. Proved by a computation inside Coq over all 65536 code points below 2^16 lifted by a bound lemma above, over the '
+        'consumes exactly the written literal whatever follows and returns the original text; escaping is injective. What is written between the quotes is in the literal production of the Haystack grammar, stated as an inductive relation independent of the reader (C08_written_string_in_grammar, C08_written_uri_in_grammar). Proved by a computation inside Coq over all 65536 code points below 2^16 lifted by a bound lemma above, over the '
         'escape tables REGENERATED from hszinc/zincdumper.py on every run. Tied by the extracted escaper / literal reader vs zincdumper.dump_str / dump_uri / zincparser.hs_str / hs_uri on every payload; the search puts every payload '
         'in 9 text-carrying positions x both formats of a two-grid document and compares grids, rows, cells, neighbours and payload.',
    note='JSON positions: containment is json.dumps / json.loads (CPython, outside the model) plus the prefix lemmas of C02 (payload verbatim after the prefix). thorough is exhaustive over U+0000..U+10FFFF in the tie and the str-cell '
